@@ -1,6 +1,725 @@
-//! C09 — not implemented yet.
-use mc_core::Ctx;
+//! C09 — resources cannot vanish or be duplicated inside a transaction.
+//!
+//! One transaction = one instruction sequence. ALL sequences up to the bound over the alphabet below are
+//! executed on the real engine (account A: 3 F, non-fungibles {#1,#2}); a sequence is extended only if the
+//! real engine executed every one of its instructions (marker observation, see common.rs), i.e. prefix
+//! pruning follows the engine, not the model. Reference: a multiset model of vault / worktop / buckets.
+//!
+//! Oracle per sequence (only what the statement says is a hard demand):
+//!  * MustFail — use of a consumed / never created bucket, taking more than is there (worktop, bucket, vault),
+//!    taking an absent id, a failing worktop assertion, dropping a non-empty bucket (foreign drop, forgetting
+//!    it in a foreign frame), and at the end: anything left on the worktop or in a named bucket;
+//!  * MustPass — a worktop assertion whose condition holds ("exactly when");
+//!  * ShouldPass — operations that are fully defined by the model (take ≤ present, return / deposit / burn of a
+//!    live non-empty bucket, end of a transaction with nothing left): a failure is reported;
+//!  * Either (informational) — everything the statement is silent about: zero-amount takes, operations on
+//!    empty buckets, an empty named bucket left at the end, anything involving a bucket locked by a proof
+//!    (that is C10's subject; the model only knows the natural engine behaviour and does not demand it).
+//!  On success: A's balances, A's ids and both recorded supplies must equal the model's (vault + burned is
+//!  conserved by construction of the model, so equality is the conservation check).
+use crate::common::*;
+use crate::seqx::*;
+use mc_core::{Ctx, Level};
+use mc_ledger::*;
+use radix_transactions::manifest::*;
+use serde_json::{json, Map, Value};
+use std::collections::BTreeSet;
 
-pub fn run(_ctx: Ctx) -> ! {
-    mc_core::machinery_error("C09: not implemented")
+// ------------------------------------------------------------------------------------------------
+// alphabet
+// ------------------------------------------------------------------------------------------------
+
+#[derive(Clone, Copy, Debug, PartialEq, Eq, PartialOrd, Ord, Hash)]
+pub enum Op {
+    WithdrawF(u8),
+    /// bit mask over ids {1,2}
+    WithdrawNf(u8),
+    TakeF(u8),
+    TakeAllF,
+    TakeAllNf,
+    TakeNf(u8),
+    Return(u8),
+    Burn(u8),
+    Deposit(u8),
+    ProofAll(u8),
+    DropRaw(u8),
+    DropEmpty(u8),
+    Forget(u8),
+    KeepRest(u8),
+    Pass(u8),
+    DepositBatch,
+    AssertF(u8),
+    AssertAnyF,
+    AssertNf(u8),
+}
+
+fn mask_ids(mask: u8) -> Vec<u64> {
+    (0..8).filter(|i| mask & (1 << i) != 0).map(|i| i as u64 + 1).collect()
+}
+fn mask_set(mask: u8) -> BTreeSet<u64> {
+    mask_ids(mask).into_iter().collect()
+}
+
+impl Op {
+    fn label(&self) -> &'static str {
+        match self {
+            Op::WithdrawF(_) => "withdraw",
+            Op::WithdrawNf(_) => "withdraw-ids",
+            Op::TakeF(_) => "take",
+            Op::TakeAllF | Op::TakeAllNf => "take-all",
+            Op::TakeNf(_) => "take-ids",
+            Op::Return(_) => "return",
+            Op::Burn(_) => "burn",
+            Op::Deposit(_) => "deposit",
+            Op::ProofAll(_) => "proof-of-bucket",
+            Op::DropRaw(_) => "foreign-drop-raw",
+            Op::DropEmpty(_) => "foreign-drop-empty",
+            Op::Forget(_) => "foreign-forget",
+            Op::KeepRest(_) => "foreign-keep-rest",
+            Op::Pass(_) => "foreign-pass",
+            Op::DepositBatch => "deposit-batch",
+            Op::AssertF(_) => "assert-amount",
+            Op::AssertAnyF => "assert-any",
+            Op::AssertNf(_) => "assert-ids",
+        }
+    }
+    fn creates_bucket(&self) -> bool {
+        matches!(self, Op::TakeF(_) | Op::TakeAllF | Op::TakeAllNf | Op::TakeNf(_))
+    }
+    fn creates_proof(&self) -> bool {
+        matches!(self, Op::ProofAll(_))
+    }
+}
+
+#[derive(Clone, Copy, Debug, PartialEq, Eq)]
+pub struct Alphabet {
+    /// probe (foreign) operations included
+    pub probe: bool,
+    /// proof-from-bucket included
+    pub proofs: bool,
+    /// bucket arguments also range over consumed buckets and the next (never created) id
+    pub stale: bool,
+}
+
+/// Enabled operations after a prefix that created `n_buckets` buckets, of which `live` are (syntactically) live.
+fn ops(al: &Alphabet, live: &[bool]) -> Vec<Op> {
+    let mut v = vec![
+        Op::WithdrawF(1),
+        Op::WithdrawF(3),
+        Op::WithdrawNf(0b01),
+        Op::WithdrawNf(0b11),
+        Op::TakeF(0),
+        Op::TakeF(1),
+        Op::TakeF(2),
+        Op::TakeF(3),
+        Op::TakeAllF,
+        Op::TakeNf(0),
+        Op::TakeNf(0b01),
+        Op::TakeNf(0b11),
+        Op::TakeAllNf,
+    ];
+    let n = live.len() as u8;
+    for b in 0..n {
+        if live[b as usize] {
+            v.push(Op::Return(b));
+            v.push(Op::Burn(b));
+            v.push(Op::Deposit(b));
+            if al.proofs {
+                v.push(Op::ProofAll(b));
+            }
+            if al.probe {
+                v.push(Op::DropRaw(b));
+                v.push(Op::DropEmpty(b));
+                v.push(Op::Forget(b));
+                v.push(Op::KeepRest(b));
+                v.push(Op::Pass(b));
+            }
+        } else if al.stale {
+            // one representative per code path of the processor: take_bucket (return, burn), get_bucket (proof),
+            // argument transformation of a call (deposit)
+            v.push(Op::Return(b));
+            v.push(Op::Burn(b));
+            v.push(Op::Deposit(b));
+            if al.proofs {
+                v.push(Op::ProofAll(b));
+            }
+        }
+    }
+    if al.stale {
+        v.push(Op::Return(n)); // never created
+    }
+    v.push(Op::DepositBatch);
+    v.push(Op::AssertF(0));
+    v.push(Op::AssertF(1));
+    v.push(Op::AssertF(2));
+    v.push(Op::AssertAnyF);
+    v.push(Op::AssertNf(0b01));
+    v.push(Op::AssertNf(0b11));
+    v
+}
+
+fn instruction(w: &RWorld, op: &Op) -> InstructionV1 {
+    let b = |i: &u8| ManifestBucket(*i as u32);
+    match op {
+        Op::WithdrawF(a) => call_method(w.a, "withdraw", &(w.f, Decimal::from(*a as u32))),
+        Op::WithdrawNf(m) => call_method(w.a, "withdraw_non_fungibles", &(w.nf, ids(&mask_ids(*m)))),
+        Op::TakeF(a) => InstructionV1::TakeFromWorktop(TakeFromWorktop { resource_address: w.f, amount: Decimal::from(*a as u32) }),
+        Op::TakeAllF => InstructionV1::TakeAllFromWorktop(TakeAllFromWorktop { resource_address: w.f }),
+        Op::TakeAllNf => InstructionV1::TakeAllFromWorktop(TakeAllFromWorktop { resource_address: w.nf }),
+        Op::TakeNf(m) => InstructionV1::TakeNonFungiblesFromWorktop(TakeNonFungiblesFromWorktop { resource_address: w.nf, ids: ids(&mask_ids(*m)) }),
+        Op::Return(i) => InstructionV1::ReturnToWorktop(ReturnToWorktop { bucket_id: b(i) }),
+        Op::Burn(i) => InstructionV1::BurnResource(BurnResource { bucket_id: b(i) }),
+        Op::Deposit(i) => call_method(w.a, "deposit", &(b(i),)),
+        Op::ProofAll(i) => InstructionV1::CreateProofFromBucketOfAll(CreateProofFromBucketOfAll { bucket_id: b(i) }),
+        Op::DropRaw(i) => call_probe(w, "drop_raw", &(b(i),)),
+        Op::DropEmpty(i) => call_probe(w, "drop_empty", &(b(i),)),
+        Op::Forget(i) => call_probe(w, "forget", &(b(i),)),
+        Op::KeepRest(i) => call_probe(w, "keep_rest", &(b(i),)),
+        Op::Pass(i) => call_probe(w, "pass", &(b(i),)),
+        Op::DepositBatch => call_method(w.a, "deposit_batch", &(ManifestExpression::EntireWorktop,)),
+        Op::AssertF(a) => InstructionV1::AssertWorktopContains(AssertWorktopContains { resource_address: w.f, amount: Decimal::from(*a as u32) }),
+        Op::AssertAnyF => InstructionV1::AssertWorktopContainsAny(AssertWorktopContainsAny { resource_address: w.f }),
+        Op::AssertNf(m) => InstructionV1::AssertWorktopContainsNonFungibles(AssertWorktopContainsNonFungibles { resource_address: w.nf, ids: ids(&mask_ids(*m)) }),
+    }
+}
+
+// ------------------------------------------------------------------------------------------------
+// reference model (multisets; amounts are whole units)
+// ------------------------------------------------------------------------------------------------
+
+#[derive(Clone, Copy, Debug, PartialEq, Eq)]
+enum Res {
+    F,
+    Nf,
+}
+
+/// A bucket object: a container with identity (the worktop keeps one per resource).
+#[derive(Clone, Debug, PartialEq, Eq)]
+struct Obj {
+    res: Res,
+    amount: i64,
+    ids: BTreeSet<u64>,
+    /// a proof of the full content exists (only `ProofAll` creates proofs here)
+    locked: bool,
+}
+
+impl Obj {
+    fn count(&self) -> i64 {
+        match self.res {
+            Res::F => self.amount,
+            Res::Nf => self.ids.len() as i64,
+        }
+    }
+    fn is_empty(&self) -> bool {
+        self.count() == 0
+    }
+}
+
+#[derive(Clone, Debug)]
+pub struct Model {
+    vault_f: i64,
+    vault_nf: BTreeSet<u64>,
+    burned_f: i64,
+    burned_nf: BTreeSet<u64>,
+    objs: Vec<Obj>,
+    wt_f: Option<usize>,
+    wt_nf: Option<usize>,
+    /// named buckets: Some(object) while live, None once consumed
+    named: Vec<Option<usize>>,
+}
+
+impl Model {
+    pub fn new() -> Model {
+        Model { vault_f: 3, vault_nf: [1u64, 2].into_iter().collect(), burned_f: 0, burned_nf: BTreeSet::new(), objs: vec![], wt_f: None, wt_nf: None, named: vec![] }
+    }
+    fn new_obj(&mut self, o: Obj) -> usize {
+        self.objs.push(o);
+        self.objs.len() - 1
+    }
+    fn wt(&mut self, r: Res) -> &mut Option<usize> {
+        match r {
+            Res::F => &mut self.wt_f,
+            Res::Nf => &mut self.wt_nf,
+        }
+    }
+    fn wt_amount_f(&self) -> i64 {
+        self.wt_f.map(|o| self.objs[o].amount).unwrap_or(0)
+    }
+    fn wt_ids(&self) -> BTreeSet<u64> {
+        self.wt_nf.map(|o| self.objs[o].ids.clone()).unwrap_or_default()
+    }
+    /// worktop.put of an unlocked or locked object. Returns Either-undefined marker if a locked object would
+    /// have to be merged into another one.
+    fn put(&mut self, o: usize) -> Option<Expect> {
+        let res = self.objs[o].res;
+        if self.objs[o].is_empty() {
+            return None; // dropped
+        }
+        match *self.wt(res) {
+            None => {
+                *self.wt(res) = Some(o);
+                None
+            }
+            Some(e) => {
+                if self.objs[o].locked {
+                    return Some(Expect::Either("locked-bucket-merged-into-worktop", false));
+                }
+                let (amount, ids) = (self.objs[o].amount, std::mem::take(&mut self.objs[o].ids));
+                self.objs[o].amount = 0;
+                self.objs[e].amount += amount;
+                self.objs[e].ids.extend(ids);
+                None
+            }
+        }
+    }
+    fn live(&self, b: u8) -> Option<usize> {
+        self.named.get(b as usize).copied().flatten()
+    }
+    fn consume(&mut self, b: u8) -> usize {
+        self.named[b as usize].take().unwrap()
+    }
+    fn deposit_obj(&mut self, o: usize) {
+        self.vault_f += self.objs[o].amount;
+        self.objs[o].amount = 0;
+        let ids = std::mem::take(&mut self.objs[o].ids);
+        self.vault_nf.extend(ids);
+    }
+
+    /// Applies the operation assuming it succeeds; returns what the statement demands of the real engine.
+    pub fn apply(&mut self, op: &Op) -> Expect {
+        match *op {
+            Op::WithdrawF(a) => {
+                let a = a as i64;
+                if a > self.vault_f {
+                    return Expect::MustFail("withdraw-more-than-vault");
+                }
+                self.vault_f -= a;
+                let o = self.new_obj(Obj { res: Res::F, amount: a, ids: BTreeSet::new(), locked: false });
+                self.put(o);
+                Expect::ShouldPass
+            }
+            Op::WithdrawNf(m) => {
+                let s = mask_set(m);
+                if !s.is_subset(&self.vault_nf) {
+                    return Expect::MustFail("withdraw-absent-id");
+                }
+                for i in &s {
+                    self.vault_nf.remove(i);
+                }
+                let o = self.new_obj(Obj { res: Res::Nf, amount: 0, ids: s, locked: false });
+                self.put(o);
+                Expect::ShouldPass
+            }
+            Op::TakeF(a) => {
+                let a = a as i64;
+                if a == 0 {
+                    let o = self.new_obj(Obj { res: Res::F, amount: 0, ids: BTreeSet::new(), locked: false });
+                    self.named.push(Some(o));
+                    return Expect::Either("take-zero-amount", true);
+                }
+                let have = self.wt_amount_f();
+                if a > have {
+                    return Expect::MustFail("take-more-than-worktop");
+                }
+                let e = self.wt_f.unwrap();
+                if a == have {
+                    // the whole content; a locked container can only be handed over as a whole
+                    self.wt_f = None;
+                    self.named.push(Some(e));
+                    return if self.objs[e].locked { Expect::Either("take-all-of-locked-worktop-bucket", true) } else { Expect::ShouldPass };
+                }
+                if self.objs[e].locked {
+                    return Expect::Either("partial-take-from-locked-worktop-bucket", false);
+                }
+                self.objs[e].amount -= a;
+                let o = self.new_obj(Obj { res: Res::F, amount: a, ids: BTreeSet::new(), locked: false });
+                self.named.push(Some(o));
+                Expect::ShouldPass
+            }
+            Op::TakeAllF | Op::TakeAllNf => {
+                let res = if matches!(op, Op::TakeAllF) { Res::F } else { Res::Nf };
+                match self.wt(res).take() {
+                    Some(e) => {
+                        self.named.push(Some(e));
+                        if self.objs[e].locked {
+                            Expect::Either("take-all-of-locked-worktop-bucket", true)
+                        } else {
+                            Expect::ShouldPass
+                        }
+                    }
+                    None => {
+                        let o = self.new_obj(Obj { res, amount: 0, ids: BTreeSet::new(), locked: false });
+                        self.named.push(Some(o));
+                        Expect::Either("take-all-of-absent-resource", true)
+                    }
+                }
+            }
+            Op::TakeNf(m) => {
+                let s = mask_set(m);
+                if s.is_empty() {
+                    let o = self.new_obj(Obj { res: Res::Nf, amount: 0, ids: BTreeSet::new(), locked: false });
+                    self.named.push(Some(o));
+                    return Expect::Either("take-empty-id-set", true);
+                }
+                let have = self.wt_ids();
+                if !s.is_subset(&have) {
+                    return Expect::MustFail("take-absent-id");
+                }
+                let e = self.wt_nf.unwrap();
+                if s == have {
+                    self.wt_nf = None;
+                    self.named.push(Some(e));
+                    return if self.objs[e].locked { Expect::Either("take-all-of-locked-worktop-bucket", true) } else { Expect::ShouldPass };
+                }
+                if self.objs[e].locked {
+                    return Expect::Either("partial-take-from-locked-worktop-bucket", false);
+                }
+                for i in &s {
+                    self.objs[e].ids.remove(i);
+                }
+                let o = self.new_obj(Obj { res: Res::Nf, amount: 0, ids: s, locked: false });
+                self.named.push(Some(o));
+                Expect::ShouldPass
+            }
+            Op::Return(b) => {
+                if self.live(b).is_none() {
+                    return Expect::MustFail("use-of-consumed-or-unknown-bucket");
+                }
+                let o = self.consume(b);
+                let empty = self.objs[o].is_empty();
+                if let Some(e) = self.put(o) {
+                    return e;
+                }
+                if empty {
+                    Expect::Either("return-empty-bucket", true)
+                } else if self.objs[o].locked {
+                    Expect::Either("return-locked-bucket", true)
+                } else {
+                    Expect::ShouldPass
+                }
+            }
+            Op::Burn(b) => {
+                if self.live(b).is_none() {
+                    return Expect::MustFail("use-of-consumed-or-unknown-bucket");
+                }
+                let o = self.consume(b);
+                if self.objs[o].locked {
+                    return Expect::Either("burn-locked-bucket", false);
+                }
+                let empty = self.objs[o].is_empty();
+                self.burned_f += self.objs[o].amount;
+                self.objs[o].amount = 0;
+                let ids = std::mem::take(&mut self.objs[o].ids);
+                self.burned_nf.extend(ids);
+                if empty {
+                    Expect::Either("burn-empty-bucket", true)
+                } else {
+                    Expect::ShouldPass
+                }
+            }
+            Op::Deposit(b) => {
+                if self.live(b).is_none() {
+                    return Expect::MustFail("use-of-consumed-or-unknown-bucket");
+                }
+                let o = self.consume(b);
+                if self.objs[o].locked {
+                    return Expect::Either("deposit-locked-bucket", false);
+                }
+                let empty = self.objs[o].is_empty();
+                self.deposit_obj(o);
+                if empty {
+                    Expect::Either("deposit-empty-bucket", true)
+                } else {
+                    Expect::ShouldPass
+                }
+            }
+            Op::ProofAll(b) => {
+                let Some(o) = self.live(b) else { return Expect::MustFail("use-of-consumed-or-unknown-bucket") };
+                if self.objs[o].is_empty() {
+                    return Expect::Either("proof-of-empty-bucket", false);
+                }
+                self.objs[o].locked = true;
+                Expect::ShouldPass
+            }
+            Op::DropRaw(b) | Op::DropEmpty(b) | Op::Forget(b) => {
+                if self.live(b).is_none() {
+                    return Expect::MustFail("use-of-consumed-or-unknown-bucket");
+                }
+                let o = self.consume(b);
+                if !self.objs[o].is_empty() {
+                    return Expect::MustFail("non-empty-bucket-dropped");
+                }
+                match op {
+                    Op::DropRaw(_) => Expect::Either("foreign-raw-drop-of-empty-bucket", true),
+                    Op::DropEmpty(_) => Expect::Either("foreign-drop-of-empty-bucket", true),
+                    _ => Expect::Either("empty-bucket-forgotten-in-foreign-frame", true),
+                }
+            }
+            Op::KeepRest(b) => {
+                if self.live(b).is_none() {
+                    return Expect::MustFail("use-of-consumed-or-unknown-bucket");
+                }
+                let o = self.consume(b);
+                if self.objs[o].locked {
+                    return Expect::Either("locked-bucket-passed-to-call", false);
+                }
+                match self.objs[o].res {
+                    Res::F => {
+                        if self.objs[o].amount < 1 {
+                            return Expect::MustFail("take-more-than-bucket");
+                        }
+                        if self.objs[o].amount > 1 {
+                            return Expect::MustFail("non-empty-bucket-dropped");
+                        }
+                        self.objs[o].amount = 0;
+                        let t = self.new_obj(Obj { res: Res::F, amount: 1, ids: BTreeSet::new(), locked: false });
+                        self.put(t);
+                    }
+                    Res::Nf => {
+                        if !self.objs[o].ids.contains(&1) {
+                            return Expect::MustFail("take-absent-id");
+                        }
+                        if self.objs[o].ids.len() > 1 {
+                            return Expect::MustFail("non-empty-bucket-dropped");
+                        }
+                        self.objs[o].ids.clear();
+                        let t = self.new_obj(Obj { res: Res::Nf, amount: 0, ids: [1u64].into_iter().collect(), locked: false });
+                        self.put(t);
+                    }
+                }
+                Expect::ShouldPass
+            }
+            Op::Pass(b) => {
+                if self.live(b).is_none() {
+                    return Expect::MustFail("use-of-consumed-or-unknown-bucket");
+                }
+                let o = self.consume(b);
+                if self.objs[o].locked {
+                    return Expect::Either("locked-bucket-passed-to-call", false);
+                }
+                let empty = self.objs[o].is_empty();
+                self.put(o);
+                if empty {
+                    Expect::Either("empty-bucket-passed-through-call", true)
+                } else {
+                    Expect::ShouldPass
+                }
+            }
+            Op::DepositBatch => {
+                let mut locked = false;
+                for r in [Res::F, Res::Nf] {
+                    if let Some(e) = self.wt(r).take() {
+                        if self.objs[e].locked {
+                            locked = true;
+                        }
+                        self.deposit_obj(e);
+                    }
+                }
+                if locked {
+                    Expect::Either("deposit-locked-bucket", false)
+                } else {
+                    Expect::ShouldPass
+                }
+            }
+            Op::AssertF(a) => {
+                if self.wt_amount_f() >= a as i64 {
+                    Expect::MustPass
+                } else {
+                    Expect::MustFail("assertion-false")
+                }
+            }
+            Op::AssertAnyF => {
+                if self.wt_amount_f() > 0 {
+                    Expect::MustPass
+                } else {
+                    Expect::MustFail("assertion-false")
+                }
+            }
+            Op::AssertNf(m) => {
+                if mask_set(m).is_subset(&self.wt_ids()) {
+                    Expect::MustPass
+                } else {
+                    Expect::MustFail("assertion-false")
+                }
+            }
+        }
+    }
+
+    /// What must happen when the transaction ends here.
+    pub fn end(&self) -> Expect {
+        if self.wt_f.map(|o| !self.objs[o].is_empty()).unwrap_or(false) || self.wt_nf.map(|o| !self.objs[o].is_empty()).unwrap_or(false) {
+            return Expect::MustFail("leftover-on-worktop");
+        }
+        let mut empty_named = false;
+        for n in self.named.iter().flatten() {
+            if !self.objs[*n].is_empty() {
+                return Expect::MustFail("non-empty-bucket-left");
+            }
+            empty_named = true;
+        }
+        if empty_named {
+            return Expect::Either("empty-named-bucket-left-at-end", true);
+        }
+        Expect::ShouldPass
+    }
+
+    fn live_flags(&self) -> Vec<bool> {
+        self.named.iter().map(|n| n.is_some()).collect()
+    }
+
+    /// independent sanity of the model itself: nothing is created or lost
+    fn conserved(&self) -> bool {
+        let mut f = self.vault_f + self.burned_f;
+        let mut ids: Vec<u64> = self.vault_nf.iter().chain(self.burned_nf.iter()).copied().collect();
+        for o in &self.objs {
+            f += o.amount;
+            ids.extend(o.ids.iter().copied());
+        }
+        ids.sort();
+        f == 3 && ids == vec![1, 2]
+    }
+}
+
+// ------------------------------------------------------------------------------------------------
+// exploration
+// ------------------------------------------------------------------------------------------------
+
+pub struct Spec {
+    snap: Snap,
+    w: RWorld,
+    al: Alphabet,
+}
+
+impl SeqSpec for Spec {
+    type Op = Op;
+    type Model = Model;
+    fn world(&self) -> (&Snap, &RWorld) {
+        (&self.snap, &self.w)
+    }
+    fn init(&self) -> Model {
+        Model::new()
+    }
+    fn ops(&self, m: &Model) -> Vec<Op> {
+        ops(&self.al, &m.live_flags())
+    }
+    fn label(&self, op: &Op) -> &'static str {
+        op.label()
+    }
+    fn apply(&self, m: &mut Model, op: &Op) -> Expect {
+        m.apply(op)
+    }
+    fn model_sane(&self, m: &Model) -> bool {
+        m.conserved()
+    }
+    fn prelude(&self) -> Vec<InstructionV1> {
+        vec![]
+    }
+    fn instruction(&self, op: &Op) -> InstructionV1 {
+        instruction(&self.w, op)
+    }
+    fn tail(&self, _m: &Model) -> Vec<InstructionV1> {
+        vec![]
+    }
+    fn end(&self, m: &Model) -> Expect {
+        m.end()
+    }
+    fn check_success(&self, sim: &mut PSim, m: &Model, _seq: &[Op], _outputs: &[InstructionOutput], _first: usize) -> Result<Value, (String, String)> {
+        let w = &self.w;
+        let (bf, bids, sf, snf) = (sim.get_component_balance(w.a, w.f), nf_ids_of(sim, w.a, w.nf), sim.get_fungible_resource_total_supply(w.f), nf_supply(sim, w.nf));
+        let mf = Decimal::from(m.vault_f);
+        let msf = Decimal::from(3 - m.burned_f);
+        let msnf = Decimal::from(2 - m.burned_nf.len() as i64);
+        if bf != mf || bids != m.vault_nf || sf != msf || snf != Some(msnf) {
+            return Err((
+                "balances-differ-from-model".into(),
+                format!("after success A holds {bf} F / ids {bids:?}, supplies {sf} / {snf:?}; model: {mf} F / {:?}, supplies {msf} / {msnf}", m.vault_nf),
+            ));
+        }
+        Ok(json!({"A_f": bf.to_string(), "A_ids": format!("{bids:?}"), "supply_f": sf.to_string()}))
+    }
+    fn parse_op(&self, s: &str) -> Option<Op> {
+        let (name, args) = split_op(s);
+        let a = args.first().map(|x| *x as u8);
+        Some(match (name, a) {
+            ("WithdrawF", Some(a)) => Op::WithdrawF(a),
+            ("WithdrawNf", Some(a)) => Op::WithdrawNf(a),
+            ("TakeF", Some(a)) => Op::TakeF(a),
+            ("TakeAllF", None) => Op::TakeAllF,
+            ("TakeAllNf", None) => Op::TakeAllNf,
+            ("TakeNf", Some(a)) => Op::TakeNf(a),
+            ("Return", Some(a)) => Op::Return(a),
+            ("Burn", Some(a)) => Op::Burn(a),
+            ("Deposit", Some(a)) => Op::Deposit(a),
+            ("ProofAll", Some(a)) => Op::ProofAll(a),
+            ("DropRaw", Some(a)) => Op::DropRaw(a),
+            ("DropEmpty", Some(a)) => Op::DropEmpty(a),
+            ("Forget", Some(a)) => Op::Forget(a),
+            ("KeepRest", Some(a)) => Op::KeepRest(a),
+            ("Pass", Some(a)) => Op::Pass(a),
+            ("DepositBatch", None) => Op::DepositBatch,
+            ("AssertF", Some(a)) => Op::AssertF(a),
+            ("AssertAnyF", None) => Op::AssertAnyF,
+            ("AssertNf", Some(a)) => Op::AssertNf(a),
+            _ => return None,
+        })
+    }
+}
+
+const FULL: Alphabet = Alphabet { probe: true, proofs: true, stale: true };
+const CORE: Alphabet = Alphabet { probe: false, proofs: false, stale: false };
+
+fn alphabet_by_tag(tag: &str) -> Alphabet {
+    if tag.starts_with("core") {
+        CORE
+    } else {
+        FULL
+    }
+}
+
+pub fn run(ctx: Ctx) -> ! {
+    let (snap, w) = build_rworld(dec!(3), 18, &[1, 2]);
+    if let Some(case) = ctx.read_replay_case() {
+        let tag = case.get("variant").and_then(|v| v.as_str()).unwrap_or("full").to_string();
+        let spec = Spec { snap, w, al: alphabet_by_tag(&tag) };
+        replay(&ctx, &spec, &tag, &case);
+        ctx.finish(Level::ModelChecking, "replay", 0, false, Map::new(), &[]);
+    }
+    if std::env::var("VERIF_COUNT").is_ok() {
+        println!("full alphabet:");
+        count_only(&Spec { snap: snap.clone(), w: w.clone(), al: FULL }, 5);
+        println!("core alphabet:");
+        count_only(&Spec { snap, w, al: CORE }, 6);
+        std::process::exit(2);
+    }
+    // (tag, length, wall cap)
+    let plan: Vec<(&str, usize, f64)> = if ctx.quick() { vec![("full", 4, 50.0)] } else { vec![("full", 5, 1000.0)] };
+    let mut cov = Map::new();
+    let (mut executed, mut nontrivial, mut capped) = (0, 0, false);
+    let mut bounds = vec![];
+    for (i, (tag, len, cap)) in plan.into_iter().enumerate() {
+        let spec = Spec { snap: snap.clone(), w: w.clone(), al: alphabet_by_tag(tag) };
+        let st = explore(&ctx, &spec, i, tag, len, cap, &mut cov);
+        executed += st.executed;
+        nontrivial += st.nontrivial;
+        capped |= st.capped;
+        cov.insert(format!("{tag}.alphabet"), json!(format!("{:?}", spec.al)));
+        bounds.push(format!("{tag}: all sequences of length <= {}{}", st.completed, if st.capped { " (wall cap hit before the planned bound)" } else { "" }));
+    }
+    cov.insert("states".into(), json!(nontrivial));
+    cov.insert("transitions".into(), json!(executed));
+    cov.insert("traces_validated_against_impl".into(), json!(executed));
+    cov.insert("bounds".into(), json!(bounds));
+    cov.insert("caps_hit".into(), json!(capped));
+    ctx.finish(
+        Level::ModelChecking,
+        "every instruction sequence up to the bound over the alphabet is executed as one transaction on the real engine from the same snapshot; a sequence is extended only if the engine executed all its instructions (marker fee lock observed in the receipt); non-trivial = sequences whose instructions all executed (their end-of-transaction verdict and balances are compared with the multiset model)",
+        nontrivial,
+        !capped,
+        cov,
+        &[
+            "account A and the marker account have owner rule allow_all so that no instruction of the alphabet depends on signatures",
+            "cases the statement is silent about (zero-amount takes, empty buckets, buckets locked by a proof) are informational",
+            "consumed-bucket arguments are limited to one representative instruction per processor code path (return, burn, deposit, proof)",
+        ],
+    )
 }
